@@ -1,5 +1,5 @@
 """property -> rules"""
-from . import rules_dd, rules_bounds, rules_limits, rules_tools, rules_conv, rules_handles, rules_access, rules_coders, rules_errors, rules_layout, rules_ann, rules_mem, rules_sd, rules_cache, rules_attr, rules_gr, rules_ref, rules_repack, rules_stale, rules_idioms
+from . import rules_dd, rules_bounds, rules_limits, rules_tools, rules_conv, rules_handles, rules_access, rules_coders, rules_errors, rules_layout, rules_ann, rules_mem, rules_sd, rules_cache, rules_attr, rules_gr, rules_ref, rules_repack, rules_stale, rules_idioms, rules_loops
 
 CLANG = "clang 14 parser, constant evaluator and CFG builder (via tools/h4x.cc)"
 CDB = "compile flags taken from ninja -t compdb of /repo/_build (or a throw-away cmake configure)"
@@ -552,6 +552,25 @@ PROPS["C13"]["explanation"] += " (ACCRECOWN) a routine releases an access record
 PROPS["C04"]["rules"] = PROPS["C04"]["rules"] + [rules_coders.rule_coder_write_guard]
 PROPS["C04"]["explanation"] += " (WRITEGUARD) the write guard of each stream coder admits an append and a full rewrite from the start and refuses partial rewrites (evaluated on five representative situations)."
 PROPS["C05"]["rules"] = PROPS["C05"]["rules"] + [rules_coders.rule_coder_write_guard]
+
+PROPS["C03"]["rules"] = PROPS["C03"]["rules"] + [(lambda ctx: rules_loops.rule_len_pair(ctx, files=("mfhdf/src/putget.c", "mfhdf/src/hdf_xdr.c"), floor=8))]
+PROPS["C03"]["explanation"] += " (LENPAIR) in every transfer loop the amount booked (remaining -= n) is the value of n the transferring call was given: nothing re-assigns n between the two."
+PROPS["C05"]["rules"] = PROPS["C05"]["rules"] + [(lambda ctx: rules_loops.rule_len_pair(ctx, files=("hdf/src/cnbit.c", "hdf/src/crle.c", "hdf/src/dfcomp.c"), floor=8)), rules_loops.rule_block_advance]
+PROPS["C05"]["explanation"] += " (LENPAIR) decode loops book the length they copied. (BLOCKADV) after Hbitwrite writes its buffer out, block_offset is advanced before the offset is used for the seek behind a pre-read or the routine returns."
+PROPS["C07"]["rules"] = PROPS["C07"]["rules"] + [(lambda ctx: rules_loops.rule_len_pair(ctx, files=("hdf/src/hblocks.c", "hdf/src/vrw.c"), floor=8))]
+PROPS["C07"]["explanation"] += " (LENPAIR) the linked-block and Vdata transfer loops book the amount they handed to Hread/Hwrite/DFKconvert."
+PROPS["C04"]["rules"] = PROPS["C04"]["rules"] + [(lambda ctx: rules_loops.rule_len_pair(ctx, files=("hdf/src/hchunks.c",), floor=6))]
+PROPS["C04"]["explanation"] += " (LENPAIR) HMCPread/HMCPwrite advance buffer pointer, byte count and position by the chunk piece they copied."
+PROPS["C19"]["rules"] = PROPS["C19"]["rules"] + [rules_loops.rule_loop_reset, rules_loops.rule_consume_bound, rules_loops.rule_count_product,
+                                                 (lambda ctx: rules_loops.rule_len_pair(ctx, files=("mfhdf/hdp/show.c",), floor=2))]
+PROPS["C19"]["explanation"] += " (LOOPRESET) hdfimport clears every per-input latch flag at the top of its loop over input files. (CONSUMEBOUND) hdp's record walk behind VSread runs over the count that was read. (COUNTPROD) hdiff's strip element count is the product of the edges handed to SDreaddata."
+PROPS["C18"]["rules"] = PROPS["C18"]["rules"] + [rules_loops.rule_count_product]
+PROPS["C18"]["explanation"] += " (COUNTPROD) copy_sds counts a strip's elements as the product of the edges it reads and writes."
+PROPS["C11"]["rules"] = PROPS["C11"]["rules"] + [rules_loops.rule_array_reset]
+PROPS["C11"]["explanation"] += " (ARRAYRESET) a routine that clears slots of the DFAN directory table clears every slot of it."
+PROPS["C17"]["rules"] = PROPS["C17"]["rules"] + [rules_loops.rule_end_scan]
+PROPS["C17"]["explanation"] += " (ENDSCAN) HTPstart raises its end-of-file estimate inside the walk over the DD blocks, from the walk's current block and descriptor."
+PROPS["C02"]["rules"] = PROPS["C02"]["rules"] + [rules_loops.rule_end_scan]
 
 NOT_APPLICABLE = {}
 
